@@ -4,7 +4,7 @@ from . import common as C
 
 MANIFEST = dict(
    technique="Lean 4 proof over (a) a transcription of pkg/tagparser (checked slicing: totality, no out-of-bounds slice, whitespace invariance), (b) a transcription of the cycle-detection walk of types/struct.go over type graphs (nested struct fields by value / pointer / slice element / map value / embedded, the same type reached several times, recursive types), (c) the meaning of a tag text on a string field as a function of the tag alone; `decide` over two tables regenerated behaviourally from FromStruct on every run (rule matrix: documented rule x field type x both orders of two rules x boundary values; type graphs: 94 root types read back by reflection x every single corruption of a valid value) against independently written documented-meaning oracles; differential run of histories of FromStruct calls in fresh processes",
-   text="Tag parser: c06_no_panic / c06_parse_ws are proved for all rune strings about the transcription of ParseTagString/splitParts/parseRule, tied by a differential run on corpus, exhaustive short strings over the special bytes and random byte strings under recover(). Rule matrix: Gen/TagTable.lean is regenerated on every run (one struct type per field type, one field per tag, FromStruct[T](), Parse on boundary values); c06_no_silent_noop_partial / c06_pairs_partial / c06_order_independent are `decide` proofs over the whole table, every excluded cell is a listed known finding with a witness theorem; c06_accept_perm lifts order independence of the documented meaning to any permutation of any rule list. Type graphs: Graph.Code transcribes parseStructTagsToSchemasWithCycleDetection / createSchemaFromTypeWithCycleDetection / createLazySchemaForType (the `visited` set, the Lazy path, the fresh walk under maps); c06_graph_no_lazy_on_dag (on an acyclic type graph the cycle test never fires, however often and in whatever order a type occurs), c06_graph_walk_is_spec, c06_graph_partial (= documented meaning outside the decidable deviation predicate Dev.dev) hold for all environments and all finite values; Gen/TagGraph.lean (type graphs by reflection + verdicts) is proved equal to the model on every probe (c06_graph_table_is_model) and hence to the documented meaning (c06_graph_table_partial). Histories: Rules.Code.accepts / Rules.Spec.accepts are functions of the tag text (c06_history_independent, c06_tag_ws_verdict, c06_tag_meaning_partial), tied by building families of near-identical tags in several orders in fresh child processes.",
+   text="Tag parser: c06_no_panic / c06_parse_ws are proved for all rune strings about the transcription of ParseTagString/splitParts/parseRule, tied by a differential run on corpus, exhaustive short strings over the special bytes and random byte strings under recover(). Rule matrix: Gen/TagTable.lean is regenerated on every run (one struct type per field type, one field per tag, FromStruct[T](), Parse on boundary values); c06_no_silent_noop_partial / c06_pairs_partial / c06_order_independent are `decide` proofs over the whole table, the known-finding region is split by mechanism (Tags.landed flags, pinned by hand) and is empty since the seven repairs of the rule-application code landed, so the full statements c06_no_silent_noop / c06_pairs / c06_order_independent_all are theorems; Gen/TagSwitches.lean is the STATIC table (go/ast over types/struct.go: the case lists of every type switch / assertion a rule name reaches, the constructor per reflect.Kind x pointer-ness, dispatch interfaces and their implementors), c06_switches_reach: every documented cell is reached by some case, c06_unreached_is_dropped: an unreached cell is observed as dropped, tied to the running code by the reflected schema type of every field type; c06_accept_perm lifts order independence of the documented meaning to any permutation of any rule list. Type graphs: Graph.Code transcribes parseStructTagsToSchemasWithCycleDetection / createSchemaFromTypeWithCycleDetection / createLazySchemaForType (the `visited` set, the Lazy path, the fresh walk under maps); c06_graph_no_lazy_on_dag (on an acyclic type graph the cycle test never fires, however often and in whatever order a type occurs), c06_graph_walk_is_spec, c06_graph_partial (= documented meaning outside the decidable deviation predicate Dev.dev) hold for all environments and all finite values; Gen/TagGraph.lean (type graphs by reflection + verdicts) is proved equal to the model on every probe (c06_graph_table_is_model) and hence to the documented meaning (c06_graph_table_partial). Histories: Rules.Code.accepts / Rules.Spec.accepts are functions of the tag text (c06_history_independent, c06_tag_ws_verdict, c06_tag_meaning_partial), tied by building families of near-identical tags in several orders in fresh child processes.",
    note="Trusted: Lean kernel; axioms propext/Classical.choice/Quot.sound only; Go's rune decoding of the tag (the model starts from []rune(tag)); unicode.IsSpace table as transcribed; the harness, the generators in vlib/c06.py and the comparer. The rule matrix is finite: the listed field types, one parameter per rule, pairs of rules, boundary probes only. Format rules (email/url/uuid/regex) are judged on blatant members/non-members. Type graphs: finite acyclic VALUES only (no cyclic pointer structures); probes are single corruptions of one valid value per root, recursion unfolded twice (thorough: three times); the graph world has one scalar field `V int min=3` per struct and edge tags `required` / `max=2` / none. Histories: string fields, rules enum/includes/startswith/endswith/min/max/length/required. The documented meaning is this check's reading of docs/tags.md (required = presence; an untagged field is not validated; a nil slice/map is the absent container).",
    design="DESIGN.md §5 C06")
 
